@@ -56,6 +56,11 @@ def cases(tier, rng):
             ops = ["bind tcp4", "conn 0", "rstburst 0 n=%d" % n_r, "conn 0", "xchg 0", "xchg 1", "rstburst 0 n=2", "conn 0", "xchg 2", "monitor"]
             out.append("r%d rt %s mon ct / %s" % (k, t, " / ".join(ops)))
             k += 1
+        # a monitor installed AFTER bind sees the events of that endpoint all the same
+        for transport in ("tcp4", "ipc"):
+            ops = ["bind " + transport, "conn 0", "staller 0 off=20 mode=garbage", "staller 0 off=70 mode=close", "conn 0", "xchg 0", "xchg 3", "monitor"]
+            out.append("l%d rt %s monlate / %s" % (k, t, " / ".join(ops)))
+            k += 1
         # many simultaneous misbehaving clients (k is not bounded by the property: any fixed cap on pending handshakes is a violation)
         for transport in (("tcp4", "ipc") if tier == "thorough" else (rng.choice(["tcp4", "ipc"]),)):
             for m in ((17, 33, 64, 130) if tier == "thorough" else (20, 48)):
